@@ -31,6 +31,9 @@ A0 = teneva.func_int(teneva.rand([4, 4, 4], 2, seed=5))
 Fd = teneva.full(tt([3, 3, 3], 2, 7))
 T4 = tt(n2, 2, 3)
 XC = np.cos(np.pi * np.arange(5) / 4)
+# sparse training set: every slice is covered but most index pairs of neighbouring modes never occur together
+I_SP = np.array([[j, j, j] for j in range(4)] + [[0, 1, 2], [1, 2, 3], [2, 3, 0], [3, 0, 1]])
+Y_SP = teneva.get_many(teneva.rand([4, 4, 4], 2, seed=1), I_SP)
 I_TT, IDX_TT, IDXM_TT = teneva.sample_tt([5, 5, 5], 3, seed=1)
 Y_TT = teneva.get_many(teneva.rand([5, 5, 5], 2, seed=2), I_TT)
 
@@ -80,6 +83,7 @@ CALLS = {
     'als_w': lambda: (teneva.als, (I0.copy(), y0.copy(), tt(seed=9)), dict(nswp=2, info={}, w=np.ones(len(y0)), lamb=None)),
     'als_vld': lambda: (teneva.als, (I0.copy(), y0.copy(), tt(seed=9)), dict(nswp=2, info={}, I_vld=I0[:9].copy(), y_vld=y0[:9].copy(), e_vld=1e-3)),
     'als_adapt': lambda: (teneva.als, (I0.copy(), y0.copy(), tt(r=1, seed=9)), dict(nswp=2, info={}, r=3)),
+    'als_adapt_sparse': lambda: (teneva.als, (I_SP.copy(), Y_SP.copy(), teneva.rand([4, 4, 4], 1, seed=2)), dict(nswp=2, info={}, r=3)),
     'als_func': lambda: (teneva.als_func, (X0.copy(), yX.copy(), tt([3, 3, 3], 2, 4)), dict(nswp=2, info={})),
     'als_func_nolamb': lambda: (teneva.als_func, (X0.copy(), yX.copy(), tt([2, 2, 2], 2, 4)), dict(nswp=2, info={}, lamb=None)),
     'als_func_vld': lambda: (teneva.als_func, (X0.copy(), yX.copy(), tt([3, 3, 3], 2, 4)), dict(nswp=2, info={}, X_vld=X0[:5].copy(), y_vld=yX[:5].copy())),
